@@ -6,6 +6,7 @@ CONSTANTS
   ClientOps = {"cancel", "release", "frelease"}
   RestartIfIdKnown = FALSE
   IdStoredLate = FALSE
+  RestartSkipsComplete = FALSE
   StdoutFromZero = FALSE
   ReleaseSkipsRemote = FALSE
 INVARIANTS
@@ -14,6 +15,7 @@ INVARIANTS
   LocalOutputIsPrefix
   SubmittedOnce
   BoundOnceShipped
+  MirrorNeverAbandoned
   NeverStartedIsFailed
   CancelSurvivesRestart
   ReleaseRemovesBoth
